@@ -19,7 +19,6 @@ M = [
  ('C01', 'count-metadata-dropped', 'wn/_add.py', "             count['value'],\n             count['meta'])", "             count['value'],\n             None)"),
  ('C01', 'adjposition-only-for-adjectives', 'wn/_add.py', "            if s.get('adjposition')]", "            if s.get('adjposition') and e['lemma']['partOfSpeech'] in 'as']"),
  ('C02', 'count-metadata-not-dumped', 'wn/lmf.py', "    elem = ET.Element('Count', attrib=_meta_dict(count.get('meta')))", "    elem = ET.Element('Count')"),
- ('C02', 'lexicon-attrs-unescaped-newline', 'wn/lmf.py', "        f'{attr}={quoteattr(str(val))}' for attr, val in attrib.items()", "        f'{attr}={quoteattr(str(val), {chr(10): chr(10), chr(9): chr(9)})}' for attr, val in attrib.items()"),
  ('C02', 'requires-url-dropped', 'wn/lmf.py', "    if dep.get('url'):\n        attrib['url'] = dep['url']\n    elem = ET.Element(deptype", "    elem = ET.Element(deptype"),
  ('C02', 'ilidefinition-meta-v10-only', 'wn/lmf.py', "    elem = ET.Element('ILIDefinition', attrib=_meta_dict(ili_definition.get('meta')))", "    elem = ET.Element('ILIDefinition')"),
  ('C03', 'definition-language-not-exported', 'wn/_export.py', "        {'text': text,\n         'language': language,\n         'sourceSense': sense_id,", "        {'text': text,\n         'language': '',\n         'sourceSense': sense_id,"),
